@@ -392,12 +392,21 @@ func execFailKex(o hx.Op) string {
 		cs.h.WritePacket([]byte{appType, 0xA5, 0, 0, 0, byte(k)})
 	}
 	b.gate(false) // the server's KEXINIT and reply arrive, the host key callback rejects
+	// wait until the failed key exchange has been wound up (sentInitMsg cleared) …
 	t0 = time.Now()
 	for time.Since(t0) < 5*time.Second {
-		if err := cs.h.WritePacket([]byte{appType, 0xA5, 1, 0, 0, 0}); err != nil {
-			break // the connection has been torn down
+		if k, _ := cs.h.KexState(); !k {
+			break
 		}
-		time.Sleep(time.Millisecond)
+		time.Sleep(100 * time.Microsecond)
+	}
+	// … from then on every write must fail
+	wok := 0
+	for k := 0; k < 20; k++ {
+		if err := cs.h.WritePacket([]byte{appType, 0xA5, 1, 0, 0, byte(k)}); err == nil {
+			wok++
+		}
+		time.Sleep(200 * time.Microsecond)
 	}
 	// application packets recorded after the last KEXINIT
 	cs.wire.mu.Lock()
@@ -408,7 +417,7 @@ func execFailKex(o hx.Op) string {
 		}
 	}
 	cs.wire.mu.Unlock()
-	return fmt.Sprintf("r st=failkex fk=%d cwire=%s", fk, cs.wire.String())
+	return fmt.Sprintf("r st=failkex fk=%d wok=%d cwire=%s", fk, wok, cs.wire.String())
 }
 
 func exec(line string) string {
@@ -426,7 +435,7 @@ func gen(g *hx.Gen) {
 	r := g.R
 	total := g.Count(220, 20000)
 	ciphers := []string{"aes128-ctr", "aes128-gcm@openssh.com", "chacha20-poly1305@openssh.com"}
-	// error path: a re-key that fails its host key check while packets are queued (known finding F9)
+	// error path (regression for the fixed defect d4069c3): a re-key that fails its host key check while packets are queued
 	for _, q := range []int{1, 10, 64} {
 		g.Emit("rk seed=%d cw=1 sw=0 n=%d thr=0 sthr=0 size=0 req=0 stall=0 yield=0 cipher=%s failkex=1", r.U64()>>1, q, hx.Pick(r, ciphers))
 		g.Stat("failkex")
